@@ -217,6 +217,58 @@ def run(tier):
             xc.norm_fn(f.path), "/".join(sorted({xc.version_of(g.path) for g, _, _ in lst})), rv["variant"], sym_str(payload, 80)), where=where_of(f), rule="R-PROV")
     res.count("big-integer conversion functions (integer parameter -> BigInt message)", n_conv)
 
+    # ------------------------------------------------------------------ (4) exact form of every BigInt variant
+    I64 = xc.INT_RANGE["i64"]
+    form_bad, form_ok, n_pts = {}, {}, 0
+    for f, pi in conv:
+        if not flow.aggregates(f, BIGINT_ONEOF) or f.argc != 1:
+            continue
+        ty = f.local_ty(pi)
+        nf = xc.norm_fn(f.path).replace("pallas_utxorpc::", "")
+        reached = set()
+        for v in xc.bigint_sample_points(ty):
+            n_pts += 1
+            want = "Int" if I64[0] <= v <= I64[1] else ("BigUInt" if v > 0 else "BigNInt")
+            try:
+                out = xc.find_adt(xc.Concrete(P).run(f, [xc.I(v, ty)]), BIGINT_ONEOF)
+                if out is None:
+                    raise xc.Unrecognised("no BigInt variant in the result")
+            except xc.Unrecognised as e:
+                form_bad.setdefault("bigint-form:%s:%s:unrecognised" % (nf, want), (f, "the value built for %d cannot be evaluated (%s): the byte form is not decided (fail closed)" % (v, e)))
+                continue
+            except xc.Panics as e:
+                form_bad.setdefault("bigint-form:%s:%s:panics" % (nf, want), (f, "panics (%s) for the value %d instead of representing it" % (e, v)))
+                continue
+            got, payload = out[2], (out[4][0] if out[4] else ("none",))
+            reached.add(got)
+            key = "bigint-form:%s:%s" % (nf, got)
+            if got == "Int":
+                ok = payload[0] == "int" and payload[1] == v
+                have, need = "Int(%s)" % (payload[1] if payload[0] == "int" else "?"), "Int(%d)" % v if want == "Int" else "%s with magnitude %d" % (want, v if v > 0 else -1 - v)
+            elif got in ("BigUInt", "BigNInt"):
+                req = v if got == "BigUInt" else -1 - v
+                ok = payload[0] == "bytes" and payload[1] == req and req >= 0
+                have, need = "%s bytes of magnitude %s" % (got, payload[1] if payload[0] == "bytes" else "?"), "magnitude %d (%s)" % (req, "= v" if got == "BigUInt" else "= -1 - v, the CBOR tag-3 / u5c convention")
+            else:
+                ok, have, need = False, got, want
+            if not ok:
+                form_bad.setdefault(key, (f, "the value %d is mapped to %s; required: %s" % (v, have, need)))
+            elif got != want:
+                form_bad.setdefault(key + ":range", (f, "the value %d %s but is emitted as %s: exactly the int64 range must use the plain integer form" % (
+                    v, "fits int64" if want == "Int" else "is outside int64", got)))
+            else:
+                form_ok.setdefault((key, xc.version_of(f.path)), []).append(v)
+        for bi, si, rv in flow.aggregates(f, BIGINT_ONEOF):
+            if rv["variant"] not in reached and not any(k.startswith("bigint-form:%s:" % nf) for k in form_bad):
+                res.notes.append("%s: variant %s is built but reached by no sample point of the CBOR integer range (not evaluated)" % (f.path, rv["variant"]))
+    for (key, ver), pts in sorted(form_ok.items()):
+        if key not in form_bad:
+            res.ok(key + ":" + ver, "R-TABLE", "exact at %d boundary points (%s)" % (len(pts), ", ".join(str(x) for x in pts[:4]) + (" ..." if len(pts) > 4 else "")))
+    for key, (f, text) in sorted(form_bad.items()):
+        res.violation(key, "%s: %s" % (xc.norm_fn(f.path), text), where=where_of(f), rule="R-TABLE")
+    res.count("boundary points evaluated through the big-integer conversion functions", n_pts)
+    res.floor("boundary points evaluated through the big-integer conversion functions", n_pts, 20)
+
     n_q = 0
     qgroups = {}
     for f in fns:
